@@ -302,6 +302,27 @@ def header_rules(chk, P):
         if cb is h:
             g = panrules.guards_at(P, h, bb)
             chk.require(any(x[0] == "call" and x[1] == "Vec::is_empty" and x[3] is False for x in g), "GUARD", "GUARD:header:non-empty", "Ok only with at least one signal name", "header Ok not guarded by !signals.is_empty()")
+    # exact behaviour of one trip of the header loop
+    hb = [bb for bb, t in h.calls() if callee_name(t)[0].endswith("Iterator>::next")]
+    if chk.anchor("header loop header", len(hb) == 1):
+        rows2 = set()
+        for fs, eff, how in tab.iteration_table(P, h, hb[0], effects=lambda nm: nm in ("std::vec::Vec::push",)):
+            if how == "unreachable":
+                continue
+            tok = None
+            for f in fs:
+                if f[0] in ("variant(Iterator::next(self.iter))", "variant(some!(Iterator::next(self.iter)))", "variant(ok!(some!(Iterator::next(self.iter))))") and f[1] not in (("Some",), ("Ok",)):
+                    tok = f[1]
+            other = frozenset(f for f in fs if f[0] not in ("variant(Iterator::next(self.iter))", "variant(some!(Iterator::next(self.iter)))", "variant(ok!(some!(Iterator::next(self.iter))))"))
+            rows2.add((tok, other, eff, how))
+        POS = "variant(Iterator::position([T]::iter(Vec::new()), closure({closure#0})))"
+        EMP = "Vec::is_empty(Vec::new())"
+        want2 = {(("None",), frozenset(), (), "return:Err"), (("Err",), frozenset(), (), "panic"), (("WS",), frozenset(), (), "panic"),
+                 (("SignalName",), frozenset([(POS, ("Some",))]), (), "return:Err"),
+                 (("SignalName",), frozenset([(POS, ("None",))]), ("Vec::push(Vec::new(), Into::into(Lexer::slice(self.iter)))", "Vec::push(Vec::new(), Lexer::span(self.iter))"), "back"),
+                 (("Eol",), frozenset([(EMP, True)]), (), "back"), (("Eol",), frozenset([(EMP, False)]), (), "return:Ok")}
+        chk.require(rows2 == want2, "TAB", "TAB:header:exact-loop-table", "name: new => push (name, span), repeated => Err; line break: header complete iff a name was seen, else keep going; end of input => Err; nothing else",
+                    "the header loop behaves as %s" % sorted(rows2, key=str))
     # duplicate names: push only on the position == None edge
     pushes = [bb for bb, t in h.calls() if callee_name(t)[0] == "std::vec::Vec::push"]
     good = bool(pushes)
